@@ -29,11 +29,26 @@ class ForeignRNG(RuntimeError):
     pass
 
 
-def trap_foreign_rngs():
-    """every callable of numpy.random and random raises; returns an undo function"""
+def trap_foreign_rngs(torch=None):
+    """every callable of numpy.random and random raises - and, when the torch module is given, every call that would RE-SEED
+    or reset torch's generator (only the library's seeding call may do that); returns an undo function"""
     import random as pyrandom
 
     saved = []
+    if torch is not None:
+        def reseed(name):
+            def f(*a, **k):
+                raise ForeignRNG("torch.%s was called: the generator seeded by set_random_seed was re-seeded" % name)
+
+            return f
+
+        for name in ("seed", "manual_seed", "set_rng_state"):
+            try:
+                obj = getattr(torch, name)
+            except Exception:  # noqa: BLE001 - not provided by the model
+                continue
+            saved.append((torch, name, obj))
+            setattr(torch, name, reseed(name))
 
     def trap(modname, name):
         def f(*a, **k):
@@ -162,7 +177,7 @@ def readonly(B, G, kind, n, h, a):
     bases = np.array([["Z"] * n, ["X"] + ["Z"] * (n - 1), ["Y"] * n])
     one, one_b = batch[0], list(bases[2])
     before = [(net, nm, B.scalars(p).copy()) for net, nm, p in params_of(B, st)]
-    undo = trap_foreign_rngs()
+    undo = trap_foreign_rngs(B.torch)
     ops = []
     rbm = st.rbm_am
     bkw = dict(bases=bases) if kind != "positive" else {}
@@ -263,10 +278,14 @@ def training(B, G, kind, n, h, a, bs, nbs, k=1):
     data = [rows[-1], rows[0], rows[1 % len(rows)]]
     bases = np.array([["Z"] * n, ["X"] + ["Z"] * (n - 1), ["Z"] * n]) if kind != "positive" else None
     finals = []
-    undo = trap_foreign_rngs()
+    # an earlier run on ANOTHER object ended by a stop request: that must not reach the models of the two seeded runs
+    other, _ = C.make_state(B, kind, n, h, a)
+    other.stop_training = True
+    undo = trap_foreign_rngs(B.torch)
     try:
         for run in range(2):
             st, P = C.make_state(B, kind, n, h, a)
+            G.fact("run%d.new_model_is_not_stopped" % run, st.stop_training is False, "stop_training of a new object: %r" % (st.stop_training,))
             script_tape(B)
             kw = dict(epochs=2, pos_batch_size=bs, k=k, lr=B.var("lr"))
             if nbs is not None:
